@@ -79,6 +79,7 @@ func runC01(c *fw.Ctx) {
 	forEachOutputTree(c, 4000, 2000000, func(tree *spec.Spec, r *rng.R) {
 		guard(c, func() string { return describeTree(tree) }, func() { c01Case(c, tree, r) })
 	})
+	historyCases(c, "history", 600, 60000, probeRoundTrip)
 }
 
 func c01Case(c *fw.Ctx, tree *spec.Spec, r *rng.R) {
@@ -209,6 +210,7 @@ func runC02(c *fw.Ctx) {
 			checkJSONText(c, "string", text, tree, func() string { return describeTree(tree) + "\nString() = " + text })
 		})
 	})
+	historyCases(c, "history", 600, 60000, probeJSONText)
 }
 
 func selfC02(s *fw.SelfCheck) {
@@ -242,6 +244,41 @@ func selfC02(s *fw.SelfCheck) {
 func runC16(c *fw.Ctx) {
 	forEachOutputTree(c, 1000, 400000, func(tree *spec.Spec, r *rng.R) {
 		guard(c, func() string { return describeTree(tree) }, func() { c16Case(c, tree, r) })
+	})
+	historyCases(c, "history", 400, 40000, probeFormat)
+	// deep chains (indentation wider than typical pad buffers) and long lists with nested containers
+	shapes := []int{13, 14, 20, 33, 40, 65, 130, 300}
+	c.Cases("deep-and-long", len(shapes)*4, true, func(i int, r0 *rng.R) {
+		r := rng.New(c.Seed, "C16/deep-and-long", i)
+		var tree *spec.Spec
+		if i%2 == 0 {
+			d := shapes[i/4]
+			tree = spec.ListV(spec.IntV(1), spec.StrV("leaf"))
+			for j := 0; j < d; j++ {
+				if (j+i/2)%2 == 0 {
+					tree = spec.ListV(spec.IntV(j), tree)
+				} else {
+					tree = spec.ObjV("k", tree, "n", spec.IntV(j))
+				}
+			}
+		} else {
+			n := []int{255, 256, 257, 300, 512, 1000, 1025, 4097}[i/4]
+			tree = &spec.Spec{K: spec.List}
+			for j := 0; j < n; j++ {
+				switch r.Intn(8) {
+				case 0:
+					tree.L = append(tree.L, spec.ObjV("k", spec.ListV(spec.IntV(j)), "e", spec.ListV()))
+				case 1:
+					tree.L = append(tree.L, spec.ListV(spec.ObjV("k", spec.IntV(j))))
+				default:
+					tree.L = append(tree.L, spec.IntV(j))
+				}
+			}
+			if i%4 == 3 {
+				tree = spec.ObjV("long", tree)
+			}
+		}
+		guard(c, func() string { return spec.Trunc(describeTree(tree), 2000) }, func() { c16Case(c, tree, r) })
 	})
 	// illegal indents on a few containers
 	c.Cases("illegal-indent", c.N(200, 50000), false, func(i int, r *rng.R) {
